@@ -68,6 +68,10 @@ def caches(ctx):
     # function has serves a later call the earlier result (C14.K7)
     if "K7" not in ctx.rule_min:
         imported(ctx, C14.rule_K7)
+    # and a function memoised after the rules were written keys on what its body reads (an object argument is keyed by
+    # its class's __eq__ / __hash__: a data point by its name, not by its grid) - C14.K1
+    if "K1" not in ctx.rule_min:
+        imported(ctx, C14.rule_K1)
 
 
 def no_call_state(ctx):
